@@ -5,7 +5,7 @@ From Gv Require Import lib.Bytes lib.Json lib.Gql lib.Exec
      C01.ProofsTwoStep C01.ProofsViol C01.ProofsCtxBase C01.ProofsCtx C01.ProofsTwoStepWf C01.ProofsPlanAlg
      C01.ProofsPlan C01.ProofsPlanOk C01.ProofsDedup C01.ProofsListHop
      C01.ProofsTvStatic C01.ProofsTvDefs C01.ProofsTvHidden C01.ProofsPlanGen C01.ProofsPlan2 C01.ProofsPlan2Link
-     C01.ProofsPlan2Root C01.ProofsFuelSuff C01.ProofsPlan3 C01.ProofsPlan3Keys C01.ProofsPlan3Fetch C01.ProofsPlan3Pos.
+     C01.ProofsPlan2Root C01.ProofsFuelSuff C01.ProofsNKeyDefs C01.ProofsNKeyExec C01.ProofsNKeyRepr C01.ProofsPlan3 C01.ProofsPlan3Keys C01.ProofsPlan3Fetch C01.ProofsPlan3Pos.
 Open Scope N_scope.
 
 Lemma exec_path_indep' sc U frags vars md f objty ov sels (q1 q2 : list pel) :
@@ -57,6 +57,49 @@ Proof.
   - eapply Nat.le_trans; [apply IH; exact Hd|apply Nat.le_max_r].
 Qed.
 
+(* ---- leaf / nested representation fields ---- *)
+Lemma kl_of_in all x : In x (kl_of all) <-> In (x, []) all.
+Proof.
+  unfold kl_of. rewrite in_map_iff. split.
+  - intros ([y yi] & <- & H). apply filter_In in H. destruct H as [H1 H2]. cbn [snd fst] in *. destruct yi; [exact H1|discriminate].
+  - intros H. exists (x, []). split; [reflexivity|]. apply filter_In. split; [exact H|reflexivity].
+Qed.
+Lemma kn_dedup_in seen all y : In y (kn_dedup seen all) -> In y all /\ snd y <> [] /\ ~ In (fst y) seen.
+Proof.
+  revert seen. induction all as [|x r IH]; intros seen H; [destruct H|]. cbn [kn_dedup] in H.
+  destruct (is_nil (snd x) || mem_bytes (fst x) seen) eqn:E.
+  - destruct (IH _ H) as (H1 & H2 & H3). split; [right; exact H1|split; assumption].
+  - apply orb_false_iff in E. destruct E as [E1 E2]. destruct H as [<-|H].
+    + split; [left; reflexivity|]. split; [destruct (snd x); [discriminate|discriminate]|].
+      intros Hin. apply mem_bytes_In in Hin. congruence.
+    + destruct (IH _ H) as (H1 & H2 & H3). split; [right; exact H1|]. split; [exact H2|]. intros Hin. apply H3. right. exact Hin.
+Qed.
+Lemma kn_dedup_names seen all x : In x all -> snd x <> [] -> ~ In (fst x) seen -> In (fst x) (map fst (kn_dedup seen all)).
+Proof.
+  revert seen. induction all as [|y r IH]; intros seen H Hn Hs; [destruct H|]. cbn [kn_dedup].
+  destruct (is_nil (snd y) || mem_bytes (fst y) seen) eqn:E.
+  - destruct H as [->|H]; [|apply IH; assumption].
+    apply orb_true_iff in E. destruct E as [E|E]; [destruct (snd x); [contradiction|discriminate]|apply mem_bytes_In in E; contradiction].
+  - cbn [map]. destruct H as [->|H]; [left; reflexivity|].
+    destruct (bytes_eqb (fst x) (fst y)) eqn:Exy; [left; apply bytes_eqb_eq in Exy; symmetry; exact Exy|].
+    right. apply IH; [exact H|exact Hn|]. intros [Hin|Hin]; [rewrite Hin, bytes_eqb_refl in Exy; discriminate|contradiction].
+Qed.
+Lemma kn_dedup_distinct seen all : names_distinct (map fst (kn_dedup seen all)) = true.
+Proof.
+  revert seen. induction all as [|x r IH]; intros seen; [reflexivity|]. cbn [kn_dedup].
+  destruct (is_nil (snd x) || mem_bytes (fst x) seen); [apply IH|].
+  cbn [map names_distinct]. rewrite IH, andb_true_r. apply negb_true_iff.
+  destruct (mem_bytes (fst x) (map fst (kn_dedup (fst x :: seen) r))) eqn:E; [|reflexivity]. exfalso.
+  apply mem_bytes_In in E. apply in_map_iff in E. destruct E as (y & Hy & Hin). destruct (kn_dedup_in _ _ _ Hin) as (_ & _ & H3).
+  apply H3. left. symmetry. exact Hy.
+Qed.
+Lemma kn_of_in all y : In y (kn_of all) -> In y all /\ snd y <> [].
+Proof. intros H. destruct (kn_dedup_in [] all y H) as (H1 & H2 & _). split; assumption. Qed.
+Lemma kn_of_names all x : In x all -> snd x <> [] -> In (fst x) (map fst (kn_of all)).
+Proof. intros H Hn. apply (kn_dedup_names [] all x H Hn). intros []. Qed.
+Lemma nsels_distinct kn : names_distinct (map fst kn) = true -> keys_distinct (nsels kn) = true.
+Proof. intros H. unfold nsels. rewrite (keys_distinct_map_fields nsel fst); [exact H|intros x; reflexivity]. Qed.
+
 Section PSStep.
   Variable U : universe.
   Variables (sc : schema) (subs : list schema) (vdsM : list vardef) (supM : list (bytes * json)).
@@ -65,6 +108,7 @@ Section PSStep.
   Variable tn : bool.
   Variable decls : list (name * list name).
   Variable rdecls : list rdecl.
+  Variable ndecls : list (name * (list name * nkspec)).
   Variable ab : bool.
   Variable k : nat.
 
@@ -75,15 +119,17 @@ Section PSStep.
   Hypothesis Hnr : forallb (fun vd => not_repr (vd_name vd)) vdsM = true.
   Hypothesis Hwfs : forallb (config_wf_b sc) subs = true.
   Hypothesis Hc : univ3_contract_b sc subs decls rdecls U = true.
-  Hypothesis HFL : FL_at U sc subs vdsM supM f2 kq tn decls rdecls ab k.
-  Hypothesis HFA : FA_at U sc subs vdsM supM f2 kq tn decls rdecls ab k.
+  Hypothesis Hnc : nkey_contract_b sc ndecls U = true.
+  Hypothesis Hnwf : ndecls_wf_b ndecls = true.
+  Hypothesis HFL : FL_at U sc subs vdsM supM f2 kq tn decls rdecls ndecls ab k.
+  Hypothesis HFA : FA_at U sc subs vdsM supM f2 kq tn decls rdecls ndecls ab k.
 
   (* ---- one position ---- *)
   Variables (T : name) (e : entity) (p : list pel).
   Variables (items : list (nat * pitem)) (fetches : list (fetch3)).
   Hypothesis HeU : In e U.
   Hypothesis HeT : en_type e = T.
-  Hypothesis Hst : pt_static_b sc subs [] vdsM supM kq ab decls rdecls (S k) T (PT items fetches) = true.
+  Hypothesis Hst : pt_static_b sc subs [] vdsM supM kq ab decls rdecls ndecls (S k) T (PT items fetches) = true.
   Hypothesis Hneed : (pt_need sc (PT items fetches) <= f2)%nat.
 
   Notation fld3 := (nat * pitem)%type.
@@ -101,11 +147,13 @@ Section PSStep.
   Definition hasf_p (d : fld3) : bool := match snd d with PKeep _ => false | _ => true end.
   Definition part_p (t : nat) : list fld3 := filter (fun d => Nat.eqb (fst d) t) items.
   Definition A_p (t : nat) : list selection := map (fun d => item_proj (snd d)) (part_p t).
-  Definition ks_p (t : nat) : list name := flat_map (keys_of t) (filter (deps_on t) fetches).
+  Definition all_p (t : nat) : list (name * list name) := flat_map (keys_of t) (filter (deps_on t) fetches).
+  Definition ks_p (t : nat) : list name := kl_of (all_p t).
+  Definition kn_p (t : nat) : nkspec := kn_of (all_p t).
   Definition extra_p (t : nat) : list (bytes * json) :=
     match filter (deps_on t) fetches with
     | [] => []
-    | _ => added_members e (ks_p t) (A_p t)
+    | _ => added_members e (ks_p t) (A_p t) ++ nmembers U e (kn_p t)
     end.
 
   (* the conjuncts of the static check *)
@@ -114,24 +162,37 @@ Section PSStep.
     names_distinct (map key3 items) = true /\
     forallb (fun ti : fld3 => Nat.leb (fst ti) (length fetches)) items = true /\
     forallb (fun ti : fld3 => item_unaliased (fetch_keys fetches) (snd ti)) items = true /\
-    fetches_static_b sc subs [] vdsM supM kq decls rdecls T items fetches 1%nat fetches = true /\
-    forallb (fun ti : fld3 => item_static_b sc subs [] vdsM supM kq ab decls rdecls k T (snd ti)) items = true.
+    fetches_static_b sc subs [] vdsM supM kq decls rdecls ndecls T items fetches 1%nat fetches = true /\
+    forallb (fun ti : fld3 => item_static_b sc subs [] vdsM supM kq ab decls rdecls ndecls k T (snd ti)) items = true.
   Proof.
     pose proof Hst as H. cbn [pt_static_b] in H.
     apply andb_true_iff in H. destruct H as [H H7].
     apply andb_true_iff in H. destruct H as [H H6].
+    apply andb_true_iff in H. destruct H as [H Hnn].
     apply andb_true_iff in H. destruct H as [H H5].
     apply andb_true_iff in H. destruct H as [H H4].
     apply andb_true_iff in H. destruct H as [H H3].
     apply andb_true_iff in H. destruct H as [H1 H2]. apply negb_true_iff in H2.
     repeat split; assumption.
   Qed.
+  (* a nested key field is no item of the position and no leaf representation field *)
+  Lemma st_nn k0 : In k0 (fetch_nnames fetches) -> ~ In k0 (map key3 items) /\ ~ In k0 (fetch_keys fetches).
+  Proof.
+    pose proof Hst as H. cbn [pt_static_b] in H.
+    apply andb_true_iff in H. destruct H as [H _].
+    apply andb_true_iff in H. destruct H as [H _].
+    apply andb_true_iff in H. destruct H as [_ Hnn].
+    intros Hk. rewrite forallb_forall in Hnn. specialize (Hnn k0 Hk). apply andb_true_iff in Hnn. destruct Hnn as [N1 N2].
+    apply negb_true_iff in N1, N2. split; intros Hin; apply mem_bytes_In in Hin.
+    - unfold key3 in Hin. congruence.
+    - congruence.
+  Qed.
 
   Lemma items_plain_p d : In d items ->
     plain_field (item_proj (snd d)) = true /\ plain_field (item_client (snd d)) = true.
   Proof.
     intros Hd. destruct st_parts as (_ & _ & _ & _ & _ & _ & Hit). rewrite forallb_forall in Hit.
-    destruct (item_static_plain sc subs vdsM supM kq ab decls rdecls k T (snd d) (Hit d Hd)) as [(a & n & args & ss & ->) (a' & n' & args' & ss' & ->)].
+    destruct (item_static_plain sc subs vdsM supM kq ab decls rdecls ndecls k T (snd d) (Hit d Hd)) as [(a & n & args & ss & ->) (a' & n' & args' & ss' & ->)].
     split; reflexivity.
   Qed.
 
@@ -139,7 +200,7 @@ Section PSStep.
   Proof.
     apply Forall_forall. intros s Hs. unfold A_p in Hs. apply in_map_iff in Hs. destruct Hs as (d & <- & Hd).
     apply filter_In in Hd. destruct st_parts as (_ & _ & _ & _ & _ & _ & Hit). rewrite forallb_forall in Hit.
-    apply (item_static_plain sc subs vdsM supM kq ab decls rdecls k T (snd d) (Hit d (proj1 Hd))).
+    apply (item_static_plain sc subs vdsM supM kq ab decls rdecls ndecls k T (snd d) (Hit d (proj1 Hd))).
   Qed.
 
   Lemma item_proj_key_p d : In d items -> sel_key (item_proj (snd d)) = key3 d.
@@ -215,17 +276,60 @@ Section PSStep.
     unfold univ_contract_b in H. apply andb_true_iff in H. destruct H as [_ H]. rewrite forallb_forall in H. apply H. exact HeU.
   Qed.
 
+  Lemma ne_contract : nent_contract_b sc ndecls U e = true.
+  Proof.
+    pose proof Hnc as H. unfold nkey_contract_b in H. apply andb_true_iff in H. destruct H as [_ H].
+    rewrite forallb_forall in H. apply H. exact HeU.
+  Qed.
+  Lemma Hnk_p : nkey_consistent ndecls U = true.
+  Proof. pose proof Hnc as H. unfold nkey_contract_b in H. apply andb_true_iff in H. apply H. Qed.
+
+  (* the nested key declared for the type of the position: its parts are fine on [e]; one declaration per type *)
+  Lemma ndecl_parts d : In d ndecls -> fst d = T ->
+    forallb (key_field_ok sc e) (fst (snd d)) = true /\ forallb (nkey_ok_b sc U e) (snd (snd d)) = true /\
+    names_distinct (map fst (snd (snd d))) = true /\ forallb ninner_distinct_b (snd (snd d)) = true.
+  Proof.
+    intros Hd HT.
+    pose proof ne_contract as H. unfold nent_contract_b in H. rewrite forallb_forall in H. specialize (H d Hd).
+    rewrite HT, HeT, bytes_eqb_refl in H. cbn [negb orb] in H. apply andb_true_iff in H. destruct H as [H1 H2].
+    pose proof Hnwf as W. unfold ndecls_wf_b in W. apply andb_true_iff in W. destruct W as [_ W]. rewrite forallb_forall in W.
+    specialize (W d Hd). apply andb_true_iff in W. destruct W as [W1 W2]. repeat split; assumption.
+  Qed.
+  Lemma ndecl_unique d d' : In d ndecls -> In d' ndecls -> fst d = fst d' -> d = d'.
+  Proof.
+    pose proof Hnwf as W. unfold ndecls_wf_b in W. apply andb_true_iff in W. destruct W as [W _].
+    revert W. generalize ndecls as l. induction l as [|x l IH]; intros W Hd Hd' Hf; [destruct Hd|].
+    cbn [map names_distinct] in W. apply andb_true_iff in W. destruct W as [W1 W2]. apply negb_true_iff in W1.
+    destruct Hd as [<-|Hd], Hd' as [<-|Hd'].
+    - reflexivity.
+    - exfalso. assert (Hm : mem_bytes (fst x) (map fst l) = true) by (apply mem_bytes_In; rewrite Hf; apply in_map; exact Hd'). congruence.
+    - exfalso. assert (Hm : mem_bytes (fst x) (map fst l) = true) by (apply mem_bytes_In; rewrite <- Hf; apply in_map; exact Hd). congruence.
+    - apply IH; assumption.
+  Qed.
+  Lemma distinct_names_eq (l : nkspec) x y : names_distinct (map fst l) = true -> In x l -> In y l -> fst x = fst y -> x = y.
+  Proof.
+    induction l as [|z l IH]; intros W Hx Hy Hf; [destruct Hx|].
+    cbn [map names_distinct] in W. apply andb_true_iff in W. destruct W as [W1 W2]. apply negb_true_iff in W1.
+    destruct Hx as [<-|Hx], Hy as [<-|Hy].
+    - reflexivity.
+    - exfalso. assert (Hm : mem_bytes (fst z) (map fst l) = true) by (apply mem_bytes_In; rewrite Hf; apply in_map; exact Hy). congruence.
+    - exfalso. assert (Hm : mem_bytes (fst z) (map fst l) = true) by (apply mem_bytes_In; rewrite <- Hf; apply in_map; exact Hx). congruence.
+    - apply IH; assumption.
+  Qed.
+
   (* the static facts of the fetch at index j (1-based) *)
   Lemma fetch_static_at : forall fs j pre from si ks r,
-      fetches_static_b sc subs [] vdsM supM kq decls rdecls T items fetches j fs = true ->
+      fetches_static_b sc subs [] vdsM supM kq decls rdecls ndecls T items fetches j fs = true ->
       fs = pre ++ (from, si, ks) :: r ->
       (from <> [] /\ (forall d, In d from -> (fst d < j + length pre)%nat) /\
-       names_incl ks (flat_map snd from) = true /\ names_incl (flat_map snd from) ks = true) /\ (si < length subs)%nat /\
-      key_covered decls T ks = true /\ repr_fields_ok decls rdecls T ks = true /\
+       names_incl ks (map fst (flat_map snd from)) = true /\ names_incl (map fst (flat_map snd from)) ks = true) /\ (si < length subs)%nat /\
+      key_static_b decls ndecls T (fetch_kl from ks) (fetch_kn from) = true /\ repr_fields_ok_n decls rdecls ndecls T (fetch_kl from ks) = true /\
+      forallb (fun x : name * list name => if is_nil (snd x) then negb (mem_bytes (fst x) (map fst (fetch_kn from)))
+                                           else existsb (fun y : name * list name => nk_eqb [x] [y]) (fetch_kn from)) (flat_map snd from) = true /\
       sels_noent (src_proj (j + length pre) items fetches) = true /\
       req_ok_b (sub_at sc subs si) [] vars not_repr kq T (src_proj (j + length pre) items fetches) = true /\
-      reqs_static_b rdecls T (src_proj (j + length pre) items fetches) ks = true /\
-      fetches_static_b sc subs [] vdsM supM kq decls rdecls T items fetches (S (j + length pre)) r = true.
+      reqs_static_b rdecls T (src_proj (j + length pre) items fetches) (fetch_kl from ks) = true /\
+      fetches_static_b sc subs [] vdsM supM kq decls rdecls ndecls T items fetches (S (j + length pre)) r = true.
   Proof.
     intros fs j pre. revert fs j. induction pre as [|[[f0 s0] k0] pre IH]; intros fs j from si ks r H ->.
     - cbn [app fetches_static_b length] in *. rewrite Nat.add_0_r.
@@ -233,6 +337,7 @@ Section PSStep.
       apply andb_true_iff in H. destruct H as [H H7].
       apply andb_true_iff in H. destruct H as [H H6].
       apply andb_true_iff in H. destruct H as [H H5].
+      apply andb_true_iff in H. destruct H as [H Hcons].
       apply andb_true_iff in H. destruct H as [H H4].
       apply andb_true_iff in H. destruct H as [H H3].
       apply andb_true_iff in H. destruct H as [H1 H2]. apply Nat.ltb_lt in H2.
@@ -246,27 +351,80 @@ Section PSStep.
       specialize (IH _ (S j) from si ks r H eq_refl). cbn [length]. rewrite <- Nat.add_succ_comm. exact IH.
   Qed.
 
-  Lemma fetch_keys_ok from si ks : In (from, si, ks) fetches -> forallb (key_field_ok sc e) ks = true.
+  Lemma fetch_static_in from si ks : In (from, si, ks) fetches ->
+    (from <> [] /\ (forall d, In d from -> (fst d < length fetches)%nat) /\
+     names_incl ks (map fst (flat_map snd from)) = true /\ names_incl (map fst (flat_map snd from)) ks = true) /\
+    key_static_b decls ndecls T (fetch_kl from ks) (fetch_kn from) = true /\ repr_fields_ok_n decls rdecls ndecls T (fetch_kl from ks) = true /\
+    forallb (fun x : name * list name => if is_nil (snd x) then negb (mem_bytes (fst x) (map fst (fetch_kn from)))
+                                         else existsb (fun y : name * list name => nk_eqb [x] [y]) (fetch_kn from)) (flat_map snd from) = true.
   Proof.
     intros Hin. apply in_split in Hin. destruct Hin as (pre & r & Hf).
     destruct st_parts as (_ & _ & _ & _ & _ & Hfs & _).
-    destruct (fetch_static_at fetches 1%nat pre from si ks r Hfs Hf) as (_ & _ & _ & Hrf & _).
-    apply (repr_fields_contract sc decls rdecls T ks e Hrf e_contract HeT).
+    destruct (fetch_static_at fetches 1%nat pre from si ks r Hfs Hf) as ((Hne & Hlt & Hi1 & Hi2) & _ & Hk & Hr & Hcons & _).
+    split; [|repeat split; assumption].
+    split; [exact Hne|]. split; [|split; assumption].
+    intros d Hd. specialize (Hlt d Hd). rewrite Hf, app_length. cbn [length]. clear -Hlt. lia.
   Qed.
 
   Lemma names_incl_In a b : names_incl a b = true -> forall x, In x a -> In x b.
   Proof. unfold names_incl. intros H x Hx. rewrite forallb_forall in H. apply mem_bytes_In. apply H. exact Hx. Qed.
 
-  (* the representation fields of a fetch are exactly the fields its dependencies are asked for *)
-  Lemma fetch_deps from si ks : In (from, si, ks) fetches ->
-    from <> [] /\ (forall d, In d from -> (fst d < length fetches)%nat) /\
-    (forall x, In x ks -> In x (flat_map snd from)) /\ (forall x, In x (flat_map snd from) -> In x ks).
+  (* the leaf representation fields of a fetch are plain non-null leaves of [e] *)
+  Lemma fetch_keys_ok from si ks : In (from, si, ks) fetches -> forallb (key_field_ok sc e) (fetch_kl from ks) = true.
   Proof.
-    intros Hin. apply in_split in Hin. destruct Hin as (pre & r & Hf).
-    destruct st_parts as (_ & _ & _ & _ & _ & Hfs & _).
-    destruct (fetch_static_at fetches 1%nat pre from si ks r Hfs Hf) as ((Hne & Hlt & Hi1 & Hi2) & _).
-    split; [exact Hne|]. split; [|split; apply names_incl_In; assumption].
-    intros d Hd. specialize (Hlt d Hd). rewrite Hf, app_length. cbn [length]. clear -Hlt. lia.
+    intros Hin. destruct (fetch_static_in from si ks Hin) as (_ & _ & Hrf & _).
+    apply forallb_forall. intros x Hx. unfold repr_fields_ok_n in Hrf. rewrite forallb_forall in Hrf. specialize (Hrf x Hx).
+    apply orb_true_iff in Hrf. destruct Hrf as [Hrf|Hrf]; [apply orb_true_iff in Hrf; destruct Hrf as [Hrf|Hrf]|]; apply existsb_exists in Hrf.
+    - destruct Hrf as ([t k1] & Hd & H). cbn [fst snd] in H. apply andb_true_iff in H. destruct H as [Ht Hm]. apply bytes_eqb_eq in Ht. subst t.
+      pose proof (ent_contract_keys sc decls rdecls e e_contract) as Hk. rewrite forallb_forall in Hk. specialize (Hk _ Hd).
+      cbn [fst snd] in Hk. rewrite HeT, bytes_eqb_refl in Hk. cbn [negb orb] in Hk. rewrite forallb_forall in Hk. apply Hk. apply mem_bytes_In. exact Hm.
+    - destruct Hrf as ([[t g] rs] & Hd & H). cbn [fst snd] in H. apply andb_true_iff in H. destruct H as [Ht Hm]. apply bytes_eqb_eq in Ht. subst t.
+      pose proof (ent_contract_inputs sc decls rdecls e e_contract) as Hk. rewrite forallb_forall in Hk. specialize (Hk _ Hd).
+      cbn [fst snd] in Hk. rewrite HeT, bytes_eqb_refl in Hk. cbn [negb orb] in Hk. rewrite forallb_forall in Hk. apply Hk. apply mem_bytes_In. exact Hm.
+    - destruct Hrf as (d & Hd & H). apply andb_true_iff in H. destruct H as [Ht Hm]. apply bytes_eqb_eq in Ht.
+      destruct (ndecl_parts d Hd Ht) as (Hk & _). rewrite forallb_forall in Hk. apply Hk. apply mem_bytes_In. exact Hm.
+  Qed.
+
+  (* the nested representation fields of a fetch are those of the nested key declared for the type *)
+  Lemma fetch_kn_decl from si ks : In (from, si, ks) fetches ->
+    fetch_kn from = [] \/ exists d, In d ndecls /\ fst d = T /\ fetch_kn from = snd (snd d) /\ names_incl (fst (snd d)) (fetch_kl from ks) = true.
+  Proof.
+    intros Hin. destruct (fetch_static_in from si ks Hin) as (_ & Hk & _).
+    unfold key_static_b in Hk. apply orb_true_iff in Hk. destruct Hk as [Hk|Hk].
+    - left. apply andb_true_iff in Hk. destruct Hk as [Hk _]. destruct (fetch_kn from); [reflexivity|discriminate].
+    - right. apply existsb_exists in Hk. destruct Hk as (d & Hd & H).
+      apply andb_true_iff in H. destruct H as [H H3]. apply andb_true_iff in H. destruct H as [H1 H2].
+      apply bytes_eqb_eq in H1. apply nk_eqb_eq in H3. exists d. repeat split; assumption.
+  Qed.
+  Lemma dep_entry_nested from si ks x : In (from, si, ks) fetches -> In x (flat_map snd from) -> snd x <> [] ->
+    In x (fetch_kn from) /\ exists d, In d ndecls /\ fst d = T /\ In x (snd (snd d)).
+  Proof.
+    intros Hin Hx Hn. destruct (fetch_static_in from si ks Hin) as (_ & _ & _ & Hcons).
+    rewrite forallb_forall in Hcons. specialize (Hcons x Hx). destruct (snd x) as [|i0 ir] eqn:Es; [contradiction|]. cbn [is_nil] in Hcons.
+    apply existsb_exists in Hcons. destruct Hcons as (y & Hy & Heq). apply nk_eqb_eq in Heq. injection Heq as <-.
+    split; [exact Hy|].
+    destruct (fetch_kn_decl from si ks Hin) as [E|(d & Hd & HT & E & _)]; [rewrite E in Hy; destruct Hy|].
+    exists d. split; [exact Hd|]. split; [exact HT|]. rewrite <- E. exact Hy.
+  Qed.
+  Lemma dep_entry_leaf from si ks x : In (from, si, ks) fetches -> In (x, []) (flat_map snd from) -> In x (fetch_kl from ks).
+  Proof.
+    intros Hin Hx. destruct (fetch_static_in from si ks Hin) as ((_ & _ & _ & Hi2) & _ & _ & Hcons).
+    rewrite forallb_forall in Hcons. specialize (Hcons _ Hx). cbn [snd is_nil fst] in Hcons. apply negb_true_iff in Hcons.
+    unfold fetch_kl. apply filter_In. split.
+    - apply (names_incl_In _ _ Hi2). apply in_map_iff. exists (x, []). split; [reflexivity|exact Hx].
+    - rewrite Hcons. reflexivity.
+  Qed.
+  (* a leaf representation field of a fetch is asked of one of its dependencies as a leaf *)
+  Lemma fetch_kl_entry from si ks x : In (from, si, ks) fetches -> In x (fetch_kl from ks) -> In (x, []) (flat_map snd from).
+  Proof.
+    intros Hin Hx. destruct (fetch_static_in from si ks Hin) as ((_ & _ & Hi1 & _) & _ & _ & Hcons).
+    unfold fetch_kl in Hx. apply filter_In in Hx. destruct Hx as [Hx Hnn]. apply negb_true_iff in Hnn.
+    apply (names_incl_In _ _ Hi1) in Hx. apply in_map_iff in Hx. destruct Hx as ([y yi] & Hy & Hin'). cbn [fst] in Hy. subst y.
+    destruct yi as [|i0 ir]; [exact Hin'|]. exfalso.
+    rewrite forallb_forall in Hcons. specialize (Hcons _ Hin'). cbn [snd is_nil] in Hcons.
+    apply existsb_exists in Hcons. destruct Hcons as (y & Hy & Heq). apply nk_eqb_eq in Heq. injection Heq as <-.
+    assert (Hm : mem_bytes x (map fst (fetch_kn from)) = true) by (apply mem_bytes_In; apply in_map_iff; exists (x, i0 :: ir); split; [reflexivity|exact Hy]).
+    congruence.
   Qed.
 
   Lemma keys_of_in t f x : In x (keys_of t f) -> In x (flat_map snd (fst (fst f))).
@@ -274,12 +432,26 @@ Section PSStep.
     unfold keys_of. intros H. apply in_flat_map in H. destruct H as (d & Hd & Hx). apply filter_In in Hd.
     apply in_flat_map. exists d. split; [apply Hd|exact Hx].
   Qed.
-
-  Lemma ks_p_in t x : In x (ks_p t) -> exists from si ks, In (from, si, ks) fetches /\ In x ks.
+  Lemma all_p_in t x : In x (all_p t) -> exists from si ks, In (from, si, ks) fetches /\ In x (flat_map snd from).
   Proof.
-    unfold ks_p. intros Hx. apply in_flat_map in Hx. destruct Hx as ([[from si] ks] & Hf & Hx).
-    apply filter_In in Hf. exists from, si, ks. split; [apply Hf|].
-    apply (proj2 (proj2 (proj2 (fetch_deps from si ks (proj1 Hf))))). apply (keys_of_in t _ x Hx).
+    unfold all_p. intros Hx. apply in_flat_map in Hx. destruct Hx as ([[from si] ks] & Hf & Hx).
+    apply filter_In in Hf. exists from, si, ks. split; [apply Hf|]. apply (keys_of_in t _ x Hx).
+  Qed.
+
+  Lemma ks_p_in t x : In x (ks_p t) -> exists from si ks, In (from, si, ks) fetches /\ In x (fetch_kl from ks).
+  Proof.
+    unfold ks_p. intros Hx. apply kl_of_in in Hx. destruct (all_p_in t _ Hx) as (from & si & ks & Hf & Hin).
+    exists from, si, ks. split; [exact Hf|]. apply (dep_entry_leaf from si ks x Hf Hin).
+  Qed.
+  Lemma kn_p_in t x : In x (kn_p t) -> exists d, In d ndecls /\ fst d = T /\ In x (snd (snd d)).
+  Proof.
+    unfold kn_p. intros Hx. apply kn_of_in in Hx. destruct Hx as [Hx Hn]. destruct (all_p_in t _ Hx) as (from & si & ks & Hf & Hin).
+    apply (dep_entry_nested from si ks x Hf Hin Hn).
+  Qed.
+  Lemma kn_p_nnames t x : In x (kn_p t) -> In (fst x) (fetch_nnames fetches).
+  Proof.
+    unfold kn_p. intros Hx. apply kn_of_in in Hx. destruct Hx as [Hx Hn]. destruct (all_p_in t _ Hx) as (from & si & ks & Hf & Hin).
+    unfold fetch_nnames. apply in_flat_map. exists (from, si, ks). split; [exact Hf|]. cbn [fst]. unfold fetch_kn. apply (kn_of_names _ x Hin Hn).
   Qed.
 
   Lemma ks_p_ok t : forallb (key_field_ok sc e) (ks_p t) = true.
@@ -287,11 +459,20 @@ Section PSStep.
     apply forallb_forall. intros x Hx. destruct (ks_p_in t x Hx) as (from & si & ks & Hf & Hk).
     pose proof (fetch_keys_ok from si ks Hf) as H. rewrite forallb_forall in H. apply H. exact Hk.
   Qed.
+  Lemma kn_p_ok t : forallb (nkey_ok_b sc U e) (kn_p t) = true /\ forallb ninner_distinct_b (kn_p t) = true /\ keys_distinct (nsels (kn_p t)) = true.
+  Proof.
+    split; [|split].
+    - apply forallb_forall. intros x Hx. destruct (kn_p_in t x Hx) as (d & Hd & HT & Hin). destruct (ndecl_parts d Hd HT) as (_ & H & _).
+      rewrite forallb_forall in H. apply H. exact Hin.
+    - apply forallb_forall. intros x Hx. destruct (kn_p_in t x Hx) as (d & Hd & HT & Hin). destruct (ndecl_parts d Hd HT) as (_ & _ & _ & H).
+      rewrite forallb_forall in H. apply H. exact Hin.
+    - apply nsels_distinct. unfold kn_p, kn_of. apply kn_dedup_distinct.
+  Qed.
 
   Lemma fetch_keys_key_ok x : In x (fetch_keys fetches) -> key_ok sc e x = true.
   Proof.
     unfold fetch_keys. intros [<-|Hx]; unfold key_ok; [rewrite bytes_eqb_refl; reflexivity|].
-    apply in_flat_map in Hx. destruct Hx as ([[from si] ks] & Hf & Hx).
+    apply in_flat_map in Hx. destruct Hx as ([[from si] ks] & Hf & Hx). cbn [fst snd] in Hx.
     pose proof (fetch_keys_ok from si ks Hf) as H. rewrite forallb_forall in H. rewrite (H x Hx). apply orb_true_r.
   Qed.
 
@@ -321,28 +502,56 @@ Section PSStep.
     destruct s as [a n args dirs ss| |]; try contradiction. apply bytes_eqb_eq. exact H.
   Qed.
 
-  (* source [t] as the monolith answers its request: the members of its fields, then the key members *)
+  (* source [t] as the monolith answers its request: the members of its fields, then the key members, then the nested key members *)
+  Lemma keys_from_eq t : keys_from t fetches =
+    match filter (deps_on t) fetches with [] => [] | _ => key_sels (ks_p t) ++ nsels (kn_p t) end.
+  Proof. unfold keys_from, ks_p, kn_p, all_p. destruct (filter (deps_on t) fetches); reflexivity. Qed.
+
+  Lemma need_src_b t : (t <= length fetches)%nat -> (fuel_bound sc (src_proj t items fetches) + 10 <= f2)%nat.
+  Proof.
+    intros Ht. destruct t as [|j].
+    - rewrite <- pt_proj_eq. apply need_proj0.
+    - destruct need_parts as (_ & _ & H & _). eapply Nat.le_trans; [|exact H].
+      assert (Hin : In (S j) (seq 1 (length fetches))) by (apply in_seq; lia).
+      clear -Hin. induction (seq 1 (length fetches)) as [|x l IH]; [destruct Hin|]. cbn [map fold_right].
+      destruct Hin as [->|Hin]; [apply Nat.le_max_l|]. eapply Nat.le_trans; [apply IH; exact Hin|apply Nat.le_max_r].
+  Qed.
   Lemma need_src t : (t <= length fetches)%nat -> (length (A_p t) + length (ks_p t) + 6 <= f2)%nat.
   Proof.
-    intros Ht.
-    assert (Hb : (fuel_bound sc (src_proj t items fetches) + 10 <= f2)%nat).
-    { destruct t as [|j].
-      - rewrite <- pt_proj_eq. apply need_proj0.
-      - destruct need_parts as (_ & _ & H & _). eapply Nat.le_trans; [|exact H].
-        assert (Hin : In (S j) (seq 1 (length fetches))) by (apply in_seq; lia).
-        clear -Hin. induction (seq 1 (length fetches)) as [|x l IH]; [destruct Hin|]. cbn [map fold_right].
-        destruct Hin as [->|Hin]; [apply Nat.le_max_l|]. eapply Nat.le_trans; [apply IH; exact Hin|apply Nat.le_max_r]. }
+    intros Ht. pose proof (need_src_b t Ht) as Hb.
     unfold fuel_bound in Hb. unfold src_proj in Hb. fold (part_p t) in Hb. fold (A_p t) in Hb. rewrite sels_size_app in Hb.
     pose proof (length_le_sels_size (A_p t)) as H1.
     assert (H2 : (length (ks_p t) <= sels_size (keys_from t fetches) + 1)%nat).
-    { unfold keys_from, ks_p. destruct (filter _ fetches) as [|f fs]; [cbn; lia|].
-      pose proof (length_le_sels_size (key_sels (flat_map (keys_of t) (f :: fs)))) as H. unfold key_sels, key_names in H. rewrite map_length in H.
-      cbn [length] in H. unfold key_sels, key_names. lia. }
+    { rewrite keys_from_eq. destruct (filter (deps_on t) fetches) as [|f fs] eqn:Ef.
+      - unfold ks_p, all_p. rewrite Ef. cbn. lia.
+      - rewrite sels_size_app. pose proof (length_le_sels_size (key_sels (ks_p t))) as H. unfold key_sels, key_names in H. rewrite map_length in H.
+        cbn [length] in H. unfold key_sels, key_names. lia. }
     pose proof (arith_flat (sels_size (A_p t) + sels_size (keys_from t fetches)) (schema_ty_depth sc)) as Ha.
     unfold level_cost in Hb. clear -Hb H1 H2 Ha. lia.
   Qed.
+  Lemma need_src_n t : (t <= length fetches)%nat -> filter (deps_on t) fetches <> [] ->
+    (length (A_p t ++ key_sels (ks_p t)) + fuel_bound sc (nsels (kn_p t)) + 6 <= f2)%nat.
+  Proof.
+    intros Ht Hne. pose proof (need_src_b t Ht) as Hb.
+    unfold src_proj in Hb. fold (part_p t) in Hb. fold (A_p t) in Hb. rewrite keys_from_eq in Hb.
+    destruct (filter (deps_on t) fetches); [contradiction|]. rewrite app_assoc in Hb.
+    unfold fuel_bound in *. rewrite sels_size_app in Hb.
+    pose proof (length_le_sels_size (A_p t ++ key_sels (ks_p t))) as H1.
+    unfold level_cost in *. clear -Hb H1. nia.
+  Qed.
 
   Definition X_p (t : nat) : sres := mex' f2 T e (src_proj t items fetches) (q_of t).
+
+  Lemma nn_not_in_A t x : In x (kn_p t) -> has_key (fst x) (A_p t ++ key_sels (ks_p t)) = false.
+  Proof.
+    intros Hx. destruct (st_nn (fst x) (kn_p_nnames t x Hx)) as [N1 N2].
+    destruct (has_key (fst x) (A_p t ++ key_sels (ks_p t))) eqn:E; [|reflexivity]. exfalso.
+    apply has_key_In in E. rewrite map_app in E. apply in_app_or in E. destruct E as [E|E].
+    - apply N1. unfold A_p in E. rewrite map_map in E. apply in_map_iff in E. destruct E as (d & Hk & Hd). apply filter_In in Hd.
+      rewrite (item_proj_key_p d (proj1 Hd)) in Hk. rewrite <- Hk. apply in_map. apply Hd.
+    - apply N2. apply (ks_p_in_fetch_keys t). unfold key_sels in E. rewrite map_map in E. apply in_map_iff in E.
+      destruct E as (k1 & Hk & Hin). cbn in Hk. rewrite <- Hk. exact Hin.
+  Qed.
 
   Lemma src_exec t : (t <= length fetches)%nat ->
     X_p t = match Rfold fld3 a_of_p (part_p t) with
@@ -351,12 +560,28 @@ Section PSStep.
             end.
   Proof.
     intros Ht. unfold X_p, src_proj. fold (part_p t). fold (A_p t). rewrite <- exec_A.
-    unfold keys_from, extra_p. fold (ks_p t).
+    rewrite keys_from_eq. unfold extra_p.
     destruct (filter (deps_on t) fetches) as [|f0 fs0] eqn:Ef.
     - rewrite app_nil_r. destruct (mex' f2 T e (A_p t) (q_of t)) as [[la|] ea]; [rewrite app_nil_r|]; reflexivity.
-    - assert (Hks : flat_map (keys_of t) (f0 :: fs0) = ks_p t) by (unfold ks_p; rewrite Ef; reflexivity).
-      rewrite Hks. unfold mex. rewrite <- HeT.
-      apply (exec_with_keys sc U vars e (A_p t) (ks_p t) (q_of t) f2 (plain_A t) (ks_p_ok t) (keys_unaliased_A t) (need_src t Ht)).
+    - assert (Hne : filter (deps_on t) fetches <> []) by (rewrite Ef; discriminate).
+      destruct (kn_p_ok t) as (Hok & Hid & Hkd).
+      rewrite app_assoc. unfold mex. rewrite <- HeT.
+      rewrite (exec_app_nsels sc U vars e (A_p t ++ key_sels (ks_p t)) (kn_p t) (q_of t) f2).
+      + rewrite (exec_with_keys sc U vars e (A_p t) (ks_p t) (q_of t) f2 (plain_A t) (ks_p_ok t) (keys_unaliased_A t) (need_src t Ht)).
+        destruct (exec_sels sc U [] vars Mono f2 (en_type e) {| ov_ent := e; ov_repr := None |} (A_p t) (q_of t)) as [[la|] ea]; [rewrite app_assoc|]; reflexivity.
+      + apply Forall_app. split; [apply plain_A|apply plain_key_sels].
+      + unfold keys_disjoint. apply forallb_forall. intros s Hs. apply negb_true_iff.
+        destruct (has_key (sel_key s) (nsels (kn_p t))) eqn:E; [|reflexivity]. exfalso.
+        apply has_key_In in E. unfold nsels in E. rewrite map_map in E. apply in_map_iff in E. destruct E as (x & Hk & Hx).
+        cbn [nsel sel_key response_name] in Hk.
+        pose proof (nn_not_in_A t x Hx) as Hn.
+        assert (Hh : has_key (fst x) (A_p t ++ key_sels (ks_p t)) = true).
+        { apply has_key_In. rewrite Hk. apply in_map. exact Hs. }
+        congruence.
+      + exact Hkd.
+      + exact Hok.
+      + exact Hid.
+      + apply (need_src_n t Ht Hne).
   Qed.
 
   Lemma src_keyvals t la ea : (t <= length fetches)%nat ->
@@ -367,25 +592,71 @@ Section PSStep.
     - refine (plain_members_keyvals sc U vars e (A_p t) (fetch_keys fetches) (q_of t) f2 la ea (plain_A t) (distinct_A t) _
                                     fetch_keys_key_ok (unaliased_A t) HR k0 v Hin HK).
       pose proof (need_src t Ht). lia.
-    - unfold extra_p in Hin. destruct (filter _ fetches); [destruct Hin|]. apply (added_members_keyvals e (ks_p t) (A_p t) k0 v Hin).
+    - unfold extra_p in Hin. destruct (filter _ fetches); [destruct Hin|]. apply in_app_or in Hin. destruct Hin as [Hin|Hin].
+      + apply (added_members_keyvals e (ks_p t) (A_p t) k0 v Hin).
+      + exfalso. destruct (nmembers_in U e (kn_p t) k0 v Hin) as (inner & e' & Hx & _).
+        destruct (st_nn k0 (kn_p_nnames t (k0, inner) Hx)) as [_ N2]. apply N2. exact HK.
+  Qed.
+
+  Lemma la_keys t la ea : (t <= length fetches)%nat -> Rfold fld3 a_of_p (part_p t) = (Some la, ea) -> map fst la = map sel_key (A_p t).
+  Proof.
+    intros Ht HR. rewrite <- exec_A in HR. unfold mex in HR. rewrite <- HeT in HR.
+    apply (plain_members sc U vars e (A_p t) (q_of t) f2 la ea (plain_A t) (distinct_A t)); [|exact HR].
+    pose proof (need_src t Ht). lia.
   Qed.
 
   Lemma src_present t la ea from si ks l x : (t <= length fetches)%nat ->
-    Rfold fld3 a_of_p (part_p t) = (Some la, ea) -> In (from, si, ks) fetches -> In (t, l) from -> In x (key_names l) ->
+    Rfold fld3 a_of_p (part_p t) = (Some la, ea) -> In (from, si, ks) fetches -> In (t, l) from -> In x (key_names (kl_of l)) ->
     In x (map fst (la ++ extra_p t)).
   Proof.
-    intros Ht HR Hf Hd Hx. rewrite <- exec_A in HR. unfold mex in HR. rewrite <- HeT in HR.
-    assert (Hm : map fst la = map sel_key (A_p t)).
-    { apply (plain_members sc U vars e (A_p t) (q_of t) f2 la ea (plain_A t) (distinct_A t)); [|exact HR].
-      pose proof (need_src t Ht). lia. }
+    intros Ht HR Hf Hd Hx.
+    pose proof (la_keys t la ea Ht HR) as Hm.
     assert (Hin : In (from, si, ks) (filter (deps_on t) fetches)).
     { apply filter_In. split; [exact Hf|]. unfold deps_on. cbn [fst]. apply existsb_exists. exists (t, l). split; [exact Hd|apply Nat.eqb_refl]. }
     unfold extra_p. destruct (filter (deps_on t) fetches) as [|f0 fs0] eqn:Ef; [destruct Hin|].
+    rewrite app_assoc, map_app. apply in_or_app. left.
     apply key_present; [|exact Hm].
     unfold key_names in *. destruct Hx as [<-|Hx]; [left; reflexivity|]. right.
-    unfold ks_p. rewrite Ef. apply in_flat_map. exists (from, si, ks). split; [exact Hin|].
+    unfold ks_p. apply kl_of_in. apply kl_of_in in Hx. unfold all_p. rewrite Ef. apply in_flat_map. exists (from, si, ks). split; [exact Hin|].
     unfold keys_of. cbn [fst]. apply in_flat_map. exists (t, l). split; [|exact Hx].
     apply filter_In. split; [exact Hd|apply Nat.eqb_refl].
+  Qed.
+  Lemma src_present_n t la ea from si ks l y : (t <= length fetches)%nat ->
+    Rfold fld3 a_of_p (part_p t) = (Some la, ea) -> In (from, si, ks) fetches -> In (t, l) from -> In y l -> snd y <> [] ->
+    In (fst y) (map fst (la ++ extra_p t)).
+  Proof.
+    intros Ht HR Hf Hd Hy Hn.
+    assert (Hin : In (from, si, ks) (filter (deps_on t) fetches)).
+    { apply filter_In. split; [exact Hf|]. unfold deps_on. cbn [fst]. apply existsb_exists. exists (t, l). split; [exact Hd|apply Nat.eqb_refl]. }
+    assert (Hall : In y (all_p t)).
+    { unfold all_p. apply in_flat_map. exists (from, si, ks). split; [exact Hin|]. unfold keys_of. cbn [fst]. apply in_flat_map. exists (t, l).
+      split; [apply filter_In; split; [exact Hd|apply Nat.eqb_refl]|exact Hy]. }
+    unfold extra_p. destruct (filter (deps_on t) fetches) as [|f0 fs0] eqn:Ef; [destruct Hin|].
+    rewrite !map_app. apply in_or_app. right. apply in_or_app. right.
+    pose proof (kn_of_names (all_p t) y Hall Hn) as Hk. fold (kn_p t) in Hk. apply in_map_iff in Hk. destruct Hk as (y' & Hfy & Hy').
+    destruct (kn_p_ok t) as (Hok & _). rewrite forallb_forall in Hok. specialize (Hok y' Hy').
+    destruct (nmember_shape sc U e y' Hok) as (e' & _ & _ & Hm).
+    rewrite <- Hfy. apply in_map_iff. exists (fst y', JObj (map (fun i => (i, key_val e' i)) (snd y'))). split; [reflexivity|].
+    unfold nmembers. apply in_flat_map. exists y'. split; [exact Hy'|]. rewrite Hm. left. reflexivity.
+  Qed.
+  (* the members under a nested key name: the object of the inner leaves of the entity the field refers to *)
+  Lemma src_nvals t la ea k0 v : (t <= length fetches)%nat ->
+    Rfold fld3 a_of_p (part_p t) = (Some la, ea) -> In (k0, v) (la ++ extra_p t) -> In k0 (fetch_nnames fetches) ->
+    exists x d e', In d ndecls /\ fst d = T /\ In x (snd (snd d)) /\ fst x = k0 /\ nref U e k0 = Some e' /\
+                   v = JObj (map (fun i => (i, key_val e' i)) (snd x)).
+  Proof.
+    intros Ht HR Hin Hnn. destruct (st_nn k0 Hnn) as [N1 N2].
+    apply in_app_or in Hin. destruct Hin as [Hin|Hin].
+    - exfalso. apply N1. pose proof (la_keys t la ea Ht HR) as Hm.
+      assert (Hk : In k0 (map fst la)) by (apply in_map_iff; exists (k0, v); split; [reflexivity|exact Hin]).
+      rewrite Hm in Hk. unfold A_p in Hk. rewrite map_map in Hk. apply in_map_iff in Hk. destruct Hk as (d & Hk & Hd). apply filter_In in Hd.
+      rewrite (item_proj_key_p d (proj1 Hd)) in Hk. rewrite <- Hk. apply in_map. apply Hd.
+    - unfold extra_p in Hin. destruct (filter _ fetches); [destruct Hin|]. apply in_app_or in Hin. destruct Hin as [Hin|Hin].
+      + exfalso. apply N2. destruct (added_members_keyvals e (ks_p t) (A_p t) k0 v Hin) as [_ Hk]. apply (ks_p_in_fetch_keys t k0 Hk).
+      + unfold nmembers in Hin. apply in_flat_map in Hin. destruct Hin as (x & Hx & Hm).
+        destruct (kn_p_ok t) as (Hok & _). rewrite forallb_forall in Hok. specialize (Hok x Hx).
+        destruct (nmember_shape sc U e x Hok) as (e' & Hr & _ & Hsh). rewrite Hsh in Hm. destruct Hm as [Hm|[]]. injection Hm as <- <-.
+        destruct (kn_p_in t x Hx) as (d & Hd & HT & Hxd). exists x, d, e'. repeat split; assumption.
   Qed.
 
   (* ---- the entity fetches of the position, one after the other ---- *)
@@ -414,7 +685,7 @@ Section PSStep.
   Lemma plain_src t : plain_sels (src_proj t items fetches).
   Proof.
     unfold src_proj. fold (part_p t). fold (A_p t). apply Forall_app. split; [apply plain_A|].
-    unfold keys_from. destruct (filter _ fetches); [constructor|apply plain_key_sels].
+    unfold keys_from. destruct (filter _ fetches); [constructor|apply Forall_app; split; [apply plain_key_sels|apply plain_nsels]].
   Qed.
 
   Lemma Hkc_p : key_consistent decls U = true.
@@ -446,56 +717,90 @@ Section PSStep.
       split; [exact Hg|]. split; [exact Hl|]. split; [intros _ t Ht; clear -Ht; lia|reflexivity].
     - set (j := S (length pre)) in *.
       destruct st_parts as (_ & _ & _ & _ & _ & Hfs & _).
-      destruct (fetch_static_at fetches 1%nat pre from si ks rest Hfs Hf) as ((Hdne & Hfrom & Hinc1 & Hinc2) & Hsi & Hkcov & Hrf & Hne & Hreq & Hrq & _).
+      destruct (fetch_static_at fetches 1%nat pre from si ks rest Hfs Hf) as ((Hdne & Hfrom & Hinc1 & Hinc2) & Hsi & Hkcov & Hrf & Hcons & Hne & Hreq & Hrq & _).
       change (1 + length pre)%nat with j in *.
       assert (Hlenf : length fetches = (length pre + S (length rest))%nat) by (rewrite Hf, app_length; reflexivity).
       assert (Hjle : (j <= length fetches)%nat) by (unfold j; clear -Hlenf; lia).
       assert (Hinf : In (from, si, ks) fetches) by (rewrite Hf; apply in_or_app; right; left; reflexivity).
       cbn [fetch_all] in Hfa.
       assert (Hfl : forall d, In d from -> (fst d < length srcs)%nat) by (intros d Hd; rewrite Hl; apply Hfrom; exact Hd).
-      assert (Hall : forallb (fun d : nat * list name => negb (is_none (nth (fst d) srcs None))) from = true).
+      assert (Hall : forallb (fun d : nat * list (name * list name) => negb (is_none (nth (fst d) srcs None))) from = true).
       { apply forallb_forall. intros d Hd. destruct (Hg (fst d) (Hfl d Hd)) as (la0 & ea0 & _ & Hs0). rewrite Hs0. reflexivity. }
       rewrite Hall in Hfa.
+      set (kl := fetch_kl from ks) in *. set (kn := fetch_kn from) in *.
+      pose proof (fetch_keys_ok from si ks Hinf) as Hklok. fold kl in Hklok.
+      (* the nested fields are those of the declared nested key, fine on [e] *)
+      assert (Hknd : forall x, In x kn -> exists d, In d ndecls /\ fst d = T /\ In x (snd (snd d))).
+      { intros x Hx. unfold kn, fetch_kn in Hx. destruct (kn_of_in _ _ Hx) as [Hx1 Hx2].
+        apply (dep_entry_nested from si ks x Hinf Hx1 Hx2). }
+      assert (Hknok : forall x, In x kn -> nkey_ok_b sc U e x = true).
+      { intros x Hx. destruct (Hknd x Hx) as (d & Hd & HT & Hxd). destruct (ndecl_parts d Hd HT) as (_ & H & _).
+        rewrite forallb_forall in H. apply H. exact Hxd. }
       (* the representation *)
-      assert (Hrepr : repr_from ks (merged srcs) = repr_of e ks).
-      { apply (merged_repr sc e ks (fetch_keys fetches) (merged srcs)).
-        - apply (fetch_keys_ok from si ks Hinf).
+      assert (Hrepr : repr_from_n kl kn (merged srcs) = repr_of_n U e kl kn).
+      { apply (merged_repr_n_ok sc U e kl kn (fetch_keys fetches) (merged srcs)).
+        - exact Hklok.
         - intros x Hx. unfold key_names, fetch_keys in *. destruct Hx as [<-|Hx]; [left; reflexivity|right].
           apply in_flat_map. exists (from, si, ks). split; [exact Hinf|exact Hx].
         - apply merged_keyvals; [clear -Hl Hjle; unfold j in *; lia|exact Hg].
         - intros x Hx.
-          assert (Hsrc : exists t l, In (t, l) from /\ In x (key_names l)).
+          assert (Hsrc : exists t l, In (t, l) from /\ In x (key_names (kl_of l))).
           { unfold key_names in Hx. destruct Hx as [<-|Hx].
             - destruct from as [|[t l] r0]; [contradiction|]. exists t, l. split; left; reflexivity.
-            - apply (names_incl_In _ _ Hinc1) in Hx. apply in_flat_map in Hx. destruct Hx as ([t l] & Hd & Hx).
-              exists t, l. split; [exact Hd|right; exact Hx]. }
+            - pose proof (fetch_kl_entry from si ks x Hinf Hx) as He. apply in_flat_map in He. destruct He as ([t l] & Hd & Hxl).
+              exists t, l. split; [exact Hd|right; apply kl_of_in; exact Hxl]. }
           destruct Hsrc as (t & l & Hd & Hxl). pose proof (Hfl _ Hd) as Htl. cbn [fst] in Htl.
           destruct (Hg t Htl) as (laf & eaf & HRf & Hsf).
           assert (Hp : In x (map fst (laf ++ extra_p t))).
           { apply (src_present t laf eaf from si ks l x); [clear -Htl Hl Hjle; unfold j in *; lia|exact HRf|exact Hinf|exact Hd|exact Hxl]. }
-          apply in_map_iff in Hp. destruct Hp as (kv & <- & Hkv). apply in_map. apply (merged_incl t _ srcs Htl Hsf kv Hkv). }
+          apply in_map_iff in Hp. destruct Hp as (kv & <- & Hkv). apply in_map. apply (merged_incl t _ srcs Htl Hsf kv Hkv).
+        - exact Hknok.
+        - intros y Hy. unfold kn, fetch_kn in Hy. destruct (kn_of_in _ _ Hy) as [Hy1 Hy2].
+          apply in_flat_map in Hy1. destruct Hy1 as ([t l] & Hd & Hyl). pose proof (Hfl _ Hd) as Htl. cbn [fst] in Htl.
+          destruct (Hg t Htl) as (laf & eaf & HRf & Hsf).
+          assert (Hp : In (fst y) (map fst (laf ++ extra_p t))).
+          { apply (src_present_n t laf eaf from si ks l y); [clear -Htl Hl Hjle; unfold j in *; lia|exact HRf|exact Hinf|exact Hd|exact Hyl|exact Hy2]. }
+          apply in_map_iff in Hp. destruct Hp as (kv & Hk & Hkv). rewrite <- Hk. apply in_map. apply (merged_incl t _ srcs Htl Hsf kv Hkv).
+        - intros x e' v Hx Hr Hin.
+          destruct (in_merged _ _ Hin) as (t & m & Ht & Hn & Hm).
+          destruct (Hg t Ht) as (la & ea & HR & Hs). rewrite Hs in Hn. injection Hn as <-.
+          assert (Hnn : In (fst x) (fetch_nnames fetches)).
+          { unfold fetch_nnames. apply in_flat_map. exists (from, si, ks). split; [exact Hinf|]. cbn [fst]. apply in_map. exact Hx. }
+          destruct (src_nvals t la ea (fst x) v) as (x' & d' & e'' & Hd' & HT' & Hx' & Hfx & Hr' & Hv);
+            [clear -Ht Hl Hjle; unfold j in *; lia|exact HR|exact Hm|exact Hnn|].
+          destruct (Hknd x Hx) as (d & Hd & HT & Hxd).
+          assert (Edd : d = d') by (apply ndecl_unique; [exact Hd|exact Hd'|rewrite HT, HT'; reflexivity]). subst d'.
+          destruct (ndecl_parts d Hd HT) as (_ & _ & Hnd & _).
+          assert (Exx : x' = x) by (apply (distinct_names_eq (snd (snd d)) x' x Hnd Hx' Hxd Hfx)). subst x'.
+          rewrite Hr in Hr'. injection Hr' as <-. exact Hv. }
       assert (Hwf : config_wf_b sc (sub_at sc subs si) = true)
         by (rewrite forallb_forall in Hwfs; apply Hwfs; unfold sub_at; apply nth_In; exact Hsi).
       assert (Hun : univ_ok_b (sub_at sc subs si) U = true)
         by (apply (univ_contract_sub sc decls rdecls subs U _ Hcu_p); unfold sub_at; apply nth_In; exact Hsi).
-      assert (Hfind : find_by_repr U (repr_of e ks) = Some e)
-        by (apply (key_covered_find decls U e ks Hkc_p HeU); rewrite HeT; exact Hkcov).
-      assert (Hreqs : reqs_covered e (src_proj j items fetches) ks = true)
-        by (apply (reqs_static_covered sc decls rdecls T _ ks e Hrq e_contract HeT)).
+      assert (Hfind : find_by_repr U (repr_of_n U e kl kn) = Some e).
+      { unfold key_static_b in Hkcov. fold kl kn in Hkcov. apply orb_true_iff in Hkcov. destruct Hkcov as [Hk|Hk].
+        - apply andb_true_iff in Hk. destruct Hk as [Hnil Hcov]. destruct kn; [|discriminate]. rewrite repr_of_n_nil.
+          apply (key_covered_find decls U e kl Hkc_p HeU). rewrite HeT. exact Hcov.
+        - apply existsb_exists in Hk. destruct Hk as (d & Hd & H).
+          apply andb_true_iff in H. destruct H as [H H3]. apply andb_true_iff in H. destruct H as [H1 H2].
+          apply bytes_eqb_eq in H1. apply nk_eqb_eq in H3.
+          apply (nkey_covered_find ndecls U e (fst (snd d)) kl kn Hnk_p HeU); [|exact H2].
+          rewrite HeT, <- H1, H3. destruct d as [dn [dk dq]]. exact Hd. }
+      assert (Hreqs : forall s0, In s0 (src_proj j items fetches) -> forall x, In x (fval_reqs (ent_fval e (sel_fname s0))) ->
+                                 req_read Sub (Some (repr_of_n U e kl kn)) e x = req_read Mono None e x).
+      { apply (reqs_agree_n_leaves sc U e (src_proj j items fetches) kl kn); [|exact Hklok].
+        apply (reqs_static_covered sc decls rdecls T _ kl e Hrq e_contract HeT). }
       assert (Hnsp : sels_nospread (src_proj j items fetches) = true)
-        by (apply (proj1 (static_nospread sc subs vdsM supM kq ab decls rdecls (S k)) T (PT items fetches) Hst j)).
-      assert (Hfuel : (fuel_bound sc (src_proj j items fetches) + 10 <= f2)%nat).
-      { destruct need_parts as (_ & _ & H & _). eapply Nat.le_trans; [|exact H].
-        assert (Hin : In j (seq 1 (length fetches))) by (apply in_seq; clear -Hjle; unfold j in *; lia).
-        clear -Hin. induction (seq 1 (length fetches)) as [|x l IHl]; [destruct Hin|]. cbn [map fold_right].
-        destruct Hin as [->|Hin]; [apply Nat.le_max_l|]. eapply Nat.le_trans; [apply IHl; exact Hin|apply Nat.le_max_r]. }
-      pose proof (fetch_one_spec U sc subs vdsM supM eQ f2 tn HeQ Hnr T (src_proj j items fetches) (merged srcs) si ks e kq
+        by (apply (proj1 (static_nospread sc subs vdsM supM kq ab decls rdecls ndecls (S k)) T (PT items fetches) Hst j)).
+      assert (Hfuel : (fuel_bound sc (src_proj j items fetches) + 10 <= f2)%nat) by (apply (need_src_b j Hjle)).
+      pose proof (fetch_one_spec U sc subs vdsM supM eQ f2 tn HeQ Hnr T (src_proj j items fetches) (merged srcs) si kl kn
+                                 (repr_of_n U e kl kn) e kq
                                  HeU HeT Hwf Hun (plain_src j) Hnsp Hne Hreq Hrepr Hfind Hreqs Hfuel) as Hspec.
       cbv zeta in Hspec. destruct Hspec as [Hs1 Hs2].
       assert (HX : exec_sels sc U [] vars Mono f2 T {| ov_ent := e; ov_repr := None |} (src_proj j items fetches) [] = X_p j)
         by (unfold X_p, mex, q_of, j; reflexivity).
       rewrite HX in Hs1, Hs2. rewrite (src_exec j Hjle) in Hs1, Hs2.
-      destruct (fetch_one U sc subs [] vdsM supM f2 tn T (src_proj j items fetches) (merged srcs) si ks) as [o eo] eqn:Efo.
+      destruct (fetch_one U sc subs [] vdsM supM f2 tn T (src_proj j items fetches) (merged srcs) si kl kn) as [o eo] eqn:Efo.
       cbn [fst snd] in Hs1, Hs2.
       destruct (fetch_all U sc subs [] vdsM supM f2 tn T items fetches (srcs ++ [o]) (S j) rest) as [os es'] eqn:Erest.
       injection Hfa as <- <-.
@@ -610,7 +915,7 @@ Section PSStep.
     intros Hd. rewrite (m_of_items d Hd). unfold mex. apply exec_sels_fuel_sufficient.
     - cbn [sels_nospread forallb]. rewrite andb_true_r.
       destruct st_parts as (_ & _ & _ & _ & _ & _ & Hit). rewrite forallb_forall in Hit.
-      apply (proj2 (static_nospread sc subs vdsM supM kq ab decls rdecls k) T (snd d) (Hit d Hd)).
+      apply (proj2 (static_nospread sc subs vdsM supM kq ab decls rdecls ndecls k) T (snd d) (Hit d Hd)).
     - pose proof (item_need_p d Hd) as H. unfold item_need in H.
       apply Nat.max_lub_iff in H. destruct H as [_ H]. apply Nat.max_lub_iff in H. destruct H as [H _]. clear -H. lia.
   Qed.
@@ -624,7 +929,7 @@ Section PSStep.
       assert (Hin : forall d, In d items -> In d items) by auto. revert Hin. generalize items at 1 3 4 as l.
       induction l as [|d l IH]; intros Hin; [reflexivity|]. cbn [fold_right]. rewrite IH; [|intros x Hx; apply Hin; right; exact Hx].
       rewrite (m_of_items d (Hin d (or_introl eq_refl))). reflexivity.
-    - apply (items_plain sc subs vdsM supM kq ab decls rdecls k T items Hit).
+    - apply (items_plain sc subs vdsM supM kq ab decls rdecls ndecls k T items Hit).
     - rewrite (keys_distinct_map_fields (fun ti : fld3 => item_client (snd ti)) key3); [exact Hk|intros d; apply item_client_key].
     - rewrite map_length. pose proof length_items_lt. lia.
   Qed.
@@ -693,12 +998,13 @@ Section PSStep.
         { rewrite Hm. apply in_map_iff. exists (SField None s_typename [] [] []). split; [reflexivity|exact Hs]. }
         apply in_map_iff in Hk. destruct Hk as (kv & Hk & Hkv'). exists kv. split; [apply in_or_app; left; exact Hkv'|].
         rewrite Hk. apply bytes_eqb_refl.
-      - unfold keys_from in Hs. unfold extra_p. fold (ks_p 0) in Hs.
+      - unfold keys_from in Hs. unfold extra_p.
         destruct (filter (deps_on 0) fetches) as [|f0 fs0] eqn:Ef; [destruct Hs|].
         assert (Hp : In s_typename (map fst (la0 ++ added_members e (ks_p 0) (A_p 0)))).
         { apply key_present; [left; reflexivity|exact Hm]. }
-        apply in_map_iff in Hp. destruct Hp as (kv & Hk & Hkv'). apply existsb_exists. exists kv. split; [exact Hkv'|].
-        rewrite Hk. apply bytes_eqb_refl. }
+        apply in_map_iff in Hp. destruct Hp as (kv & Hk & Hkv'). apply existsb_exists. exists kv. split.
+        + rewrite app_assoc. apply in_or_app. left. exact Hkv'.
+        + rewrite Hk. apply bytes_eqb_refl. }
     unfold get_member. rewrite (obj_get_uniform s_typename (la0 ++ extra_p 0) (key_val e s_typename)).
     - unfold key_val. rewrite bytes_eqb_refl, HeT. reflexivity.
     - intros k' v Hin Hk. apply bytes_eqb_eq in Hk. subst k'. apply (Hkv s_typename v Hin). left. reflexivity.
@@ -732,7 +1038,7 @@ Section PSStep.
     set (l1 := la0 ++ extra_p 0).
     assert (HnoofM : no_oof (snd (Mfold fld3 m_of_p items)) = true).
     { rewrite <- mono_fold. unfold mex. apply exec_sels_fuel_sufficient.
-      - apply (proj2 (proj1 (static_nospread sc subs vdsM supM kq ab decls rdecls (S k)) T (PT items fetches) Hst 0%nat)).
+      - apply (proj2 (proj1 (static_nospread sc subs vdsM supM kq ab decls rdecls ndecls (S k)) T (PT items fetches) Hst 0%nat)).
       - pose proof need_client as H. clear -H. lia. }
     assert (Hgen : sres_weq (run_fetches (gefs fld3 key3 tr_of_p hasf_p items) (Rfold fld3 a_of_p items)) (Mfold fld3 m_of_p items)).
     { apply (gen_alg fld3 key3 a_of_p m_of_p tr_of_p hasf_p shape_a_p shape_m_p none_a_p none_m_p).
@@ -786,15 +1092,18 @@ Section PSStep.
 End PSStep.
 
 (* the POSITION step *)
-Theorem PS_step U sc subs vdsM supM eQ f2 kq tn decls rdecls ab k :
+Theorem PS_step U sc subs vdsM supM eQ f2 kq tn decls rdecls ndecls ab k :
   find_entity U (s_query sc) [] = Some eQ ->
   forallb (fun vd => not_repr (vd_name vd)) vdsM = true ->
   forallb (config_wf_b sc) subs = true ->
   univ3_contract_b sc subs decls rdecls U = true ->
-  FL_at U sc subs vdsM supM f2 kq tn decls rdecls ab k ->
-  FA_at U sc subs vdsM supM f2 kq tn decls rdecls ab k ->
-  PS_at U sc subs vdsM supM f2 kq tn decls rdecls ab (S k).
+  nkey_contract_b sc ndecls U = true ->
+  ndecls_wf_b ndecls = true ->
+  FL_at U sc subs vdsM supM f2 kq tn decls rdecls ndecls ab k ->
+  FA_at U sc subs vdsM supM f2 kq tn decls rdecls ndecls ab k ->
+  PS_at U sc subs vdsM supM f2 kq tn decls rdecls ndecls ab (S k).
 Proof.
-  intros HeQ Hnr Hwfs Hc HFL HFA T [items fetches] e p Hst HeU HeT Hneed.
-  apply (PS_here U sc subs vdsM supM eQ f2 kq tn decls rdecls ab k HeQ Hnr Hwfs Hc HFL HFA T e p items fetches HeU HeT Hst Hneed).
+  intros HeQ Hnr Hwfs Hc Hnc Hnwf HFL HFA T [items fetches] e p Hst HeU HeT Hneed.
+  apply (PS_here U sc subs vdsM supM eQ f2 kq tn decls rdecls ndecls ab k HeQ Hnr Hwfs Hc Hnc Hnwf HFL HFA T e p items fetches HeU HeT Hst Hneed).
 Qed.
+Print Assumptions PS_step.
